@@ -162,8 +162,13 @@ T_STR, T_INT, T_FLOAT, T_BOOL, T_NULL = (
 T_TS, T_MAP, T_SEQ = P + 'timestamp', P + 'map', P + 'seq'
 
 
+# The "source line" every harness mark points into: error messages quote a
+# snippet of the input, so it holds what an adversarial line could hold.
+_SNIPPET = 'k: {0} {x} {} %s %(k)s %d { }} \\n\x00'
+
+
 def mk(line: int, col: int = 0) -> Mark:
-    return Mark('doc', line, line, col, None, 0)
+    return Mark('doc', line, line, col, _SNIPPET, 3)
 
 
 class LineCounter:
@@ -242,15 +247,25 @@ def tree_to_text(tree, loader_cls) -> str:
     else:
         text = yaml.serialize(tree, Dumper=_dumper_for(loader_cls),
                               allow_unicode=True, width=10000)
-    ldr = loader_cls(text)
-    try:
-        back = _REAL_COMPOSER_GSN(ldr)
-    finally:
-        ldr.dispose()
-    if tree_sig(back) != tree_sig(tree):
+    def composes_back(t):
+        ldr = loader_cls(t)
+        try:
+            return tree_sig(_REAL_COMPOSER_GSN(ldr)) == tree_sig(tree)
+        except yaml.YAMLError:
+            return False
+        finally:
+            ldr.dispose()
+    # the symbolic marks point into a line that holds format metacharacters
+    # (_SNIPPET); give every real line the same property through a comment
+    noisy = ''.join(
+        (ln + '    # {0} {x} {} %s %(k)s %d { }}\n') if ln.strip() else
+        ln + '\n' for ln in text.split('\n')[:-1])
+    if composes_back(noisy):
+        return noisy
+    if not composes_back(text):
         raise HarnessError(
-            'tree is not expressible as text:\n%s\n%r\n%r' % (
-                text, tree_sig(tree), tree_sig(back)))
+            'tree is not expressible as text:\n%s\n%r' % (
+                text, tree_sig(tree)))
     return text
 
 
